@@ -48,7 +48,7 @@ func c18Conc(e *env) {
 	tag := pf[1]
 	classes := []string{"none", "others", "othersTwoLines", "sameNameOtherInst", "ownOnly", "ownThenOther", "otherThenOwn", "ownSecondLine", "ownWithComment"}
 	loop := map[string]bool{"ownOnly": true, "ownThenOther": true, "otherThenOwn": true, "ownSecondLine": true, "ownWithComment": true}
-	const G, N = 16, 60
+	const G, N = 32, 150
 	var mu sync.Mutex
 	bad, total := 0, 0
 	var first string
